@@ -32,7 +32,7 @@ PROFILES = {
                  "d": (2, 2, 1, 1, 1, 1, "{1, 3}", "{1}", 0),
                  "r": (2, 2, 2, 0, 0, 0, "{1, 2, 3}", "{4}", 0),
                  "l": (3, 2, 0, 0, 0, 3, "{1}", "{4}", 0),
-                 "q": (4, 1, 1, 0, 0, 0, "{1}", "{4, 5, 6}", 1)},
+                 "q": (3, 1, 1, 0, 0, 0, "{1}", "{4, 5, 6}", 1)},
 }
 # variant of MetricsI -> the instance in which it shows
 BUGS = {"stale-cache": "a", "tag-dash-kept": "a", "status-dropped": "a", "last-wins": "a", "size-divisor": "a", "gw-missing": "a",
